@@ -41,11 +41,13 @@ pub struct Opts {
     pub max_records: usize,
     /// ids restricted to < 65536 (dense), otherwise a mixture incl. sparse ids up to 9_999_999
     pub small_ids: bool,
+    /// many multi-parent terms and redundant shortcut edges
+    pub dense: bool,
 }
 
 impl Default for Opts {
     fn default() -> Self {
-        Opts { min_terms: 1, max_terms: 14, roots_eighths: 4, flags: false, long_names: false, max_records: 5, small_ids: false }
+        Opts { min_terms: 1, max_terms: 14, roots_eighths: 4, flags: false, long_names: false, max_records: 5, small_ids: false, dense: false }
     }
 }
 
@@ -190,7 +192,7 @@ pub fn gen_facts(rng: &mut Rng, o: Opts) -> Facts {
         };
         let p = pick(rng);
         parents[i].insert(p);
-        if rng.chance(1, 4) {
+        if rng.chance(if o.dense { 5 } else { 2 }, 8) {
             let p2 = pick(rng);
             parents[i].insert(p2);
             if rng.chance(1, 3) {
@@ -198,7 +200,7 @@ pub fn gen_facts(rng: &mut Rng, o: Opts) -> Facts {
                 parents[i].insert(p3);
             }
         }
-        if rng.chance(1, 5) {
+        if rng.chance(if o.dense { 4 } else { 2 }, 10) {
             // redundant shortcut: an ancestor of an existing parent becomes a direct parent too
             let mut anc: BTreeSet<usize> = BTreeSet::new();
             let mut stack: Vec<usize> = parents[i].iter().copied().collect();
